@@ -92,7 +92,7 @@ POINTS = [
 ]
 
 
-def upload_case(ctx, cid, point='upload-listing'):
+def upload_case(ctx, cid, point='upload-listing', args=()):
     """Two `vsb upload` with the same configuration file never overlap.  The configuration holds two upload-enabled
     backups and a metrics file; the first run is held while it lists the first local storage, or - with a working
     (emulated) provider - at its very last step, writing the metrics file; the second must fail with the lock
@@ -127,12 +127,12 @@ def upload_case(ctx, cid, point='upload-listing'):
         pause = 'opendir@%s@1:%s' % (w.root, fifo) if point == 'upload-listing' else 'open@%s.tmp@1:%s' % (metrics, fifo)
         env1 = dict(os.environ, TZ='UTC', LC_ALL='C', LD_PRELOAD=store.ensure_shim(), VSBSHIM_ONLY='vsb', VSBSHIM_TIME='%d.000000000' % w.now,
                     VSBSHIM_TRACE=trace, VSBSHIM_WATCH=w.root + ':' + metrics + '.tmp', VSBSHIM_PAUSE=pause, VSB_VERIF_URL_MAP=em.url_map, GNUPGHOME=home)
-        p1 = subprocess.Popen([core.vsb_exe(ctx), '-c', w.cfg, 'upload'], stdout=subprocess.PIPE, stderr=subprocess.PIPE, env=env1)
+        p1 = subprocess.Popen([core.vsb_exe(ctx), '-c', w.cfg, 'upload'] + list(args), stdout=subprocess.PIPE, stderr=subprocess.PIPE, env=env1)
         paused = wait_paused(trace, timeout=90)
         em.new_requests()
         t0 = time.time()
         trace2 = os.path.join(w.base, 'trace2.txt')
-        r2 = store.run_vsb(ctx, ['-c', w.cfg, 'upload'], now=w.now + 1, timeout=60, shim_env={'TRACE': trace2, 'WATCH': w.root + ':' + root2},
+        r2 = store.run_vsb(ctx, ['-c', w.cfg, 'upload'] + list(args), now=w.now + 1, timeout=60, shim_env={'TRACE': trace2, 'WATCH': w.root + ':' + root2},
                            extra_env={'VSB_VERIF_URL_MAP': em.url_map, 'GNUPGHOME': home})
         time.sleep(0.1)
         went_on = ['request %s' % q['endpoint'] for q in em.new_requests()]
@@ -145,7 +145,7 @@ def upload_case(ctx, cid, point='upload-listing'):
         except OSError:
             pass
         p1.wait()
-        return {'point': point, 'paused': paused, 'rc2': r2.rc, 'errors2': r2.errors()[:2], 'dt2': round(dt, 2), 'storage_unchanged': True, 'rc1': 0,
+        return {'point': point + (' ' + ' '.join(args) if args else ''), 'paused': paused, 'rc2': r2.rc, 'errors2': r2.errors()[:2], 'dt2': round(dt, 2), 'storage_unchanged': True, 'rc1': 0,
                 'went_on': went_on}
     finally:
         em.stop()
@@ -182,6 +182,7 @@ def check(ctx):
             live.append(live_case(ctx, cid, pt)); cid += 1
         live.append(upload_case(ctx, cid)); cid += 1
         live.append(upload_case(ctx, cid, 'upload-metrics')); cid += 1
+        live.append(upload_case(ctx, cid, 'upload-listing', args=('--skip-verify',))); cid += 1     # (every way of invoking upload takes the lock)
     for c in live:
         if not c['paused']:
             ctx.violation('runtime', 'could not hold run 1 at %s' % c['point'], {'case': c}, found_input=False)
